@@ -183,8 +183,8 @@ def gen_client(rng):
         c['frames'] = client_strand(rng, c)
         strands.append(place_strike(rng, c, c['frames']))
     sched = merge_schedule(rng, strands)
-    if rng.random() < 0.03:
-        # finding D21: the peer opens a stream towards the client (kept as a small separate stream of cases)
+    if rng.random() < 0.15:
+        # D21 (repaired): the peer opens a stream towards the client; it must be refused without touching anybody
         reads = [it for it in sched if 'read' in it]
         if reads:
             it = rng.choice(reads)
@@ -397,7 +397,7 @@ def conn_step_bytes(peer, st, sid_of):
             return b''
         return P.frame_bytes(st[1], st[2], sid, bytes.fromhex(st[4]))
     if k == 'evenhdr':
-        # HEADERS that open a peer-initiated (even) stream towards a client: h2 accepts them (D21)
+        # HEADERS that open a peer-initiated (even) stream towards a client: h2 accepts them (D21, repaired)
         from hpack import Encoder, NeverIndexedHeaderTuple
         block = Encoder().encode([NeverIndexedHeaderTuple(a, b) for a, b in
                                   [(':method', 'POST'), (':scheme', 'http'), (':path', '/v.S/UU'),
@@ -956,6 +956,8 @@ def check_scenario(ctx, res, scn, pending):
     for c in scn['calls']:
         res.count('%s:card=%s' % (end, c['card']))
         res.count('%s:strike=%s' % (end, c['strike']['kind'] if c['strike'] else 'none'))
+    if any(st[0] == 'evenhdr' for item in scn.get('sched', []) for st in item.get('read', [])):
+        res.count('client:peer-opened-stream')
     for i, r in mux['calls'].items():
         if 'exc' in r:
             res.count('%s:outcome=%s' % (end, r['exc']))
@@ -974,13 +976,9 @@ def check_scenario(ctx, res, scn, pending):
                 'results': {str(i): {kk: v for kk, v in r.items() if kk in ('exc', 'msgs', 'handler')}
                             for i, r in mux['calls'].items()}}, limit=6)
 
-    opened = any(st[0] == 'evenhdr' for item in scn.get('sched', []) for st in item.get('read', []))
-
     def fail(what, kind, observed=None, **sig):
         s = {'end': end, 'kind': kind}
         s.update(sig)
-        if opened:
-            s['peer_opened_stream'] = True        # finding D21: everything after it in the read is lost
         res.oracle_failures.append({'case': scn, 'what': what, 'signature': s, 'observed': observed})
 
     # ---- direct oracle: every call as if it were alone; the connection still works
@@ -1071,7 +1069,7 @@ def _run(ctx):
     res.rule = ('PRNG scenarios of 2..5 concurrent calls (UU/US/SU/SS, distinct payloads and metadata) on one '
                 'connection; client end: scripted server interleaves HEADERS / re-cut DATA / trailers of all '
                 'calls in PRNG order, grouped into PRNG reads with PRNG byte cuts, with PING / unknown frame '
-                'types / ALTSVC / PRIORITY / WINDOW_UPDATE(0) / SETTINGS / pause-resume mixed in; ~45% of the '
+                'types / ALTSVC / PRIORITY / WINDOW_UPDATE(0) / SETTINGS / HEADERS opening an even stream / pause-resume mixed in; ~45% of the '
                 'calls struck at a PRNG point by RST_STREAM(any code), task.cancel, stream.cancel(), a short '
                 'deadline, or a malformed response; server end: the mirror image with handler exceptions and '
                 'grpc-timeout; link: real client <-> real server through a PRNG byte re-cutter with PRNG '
